@@ -79,7 +79,8 @@ def ownOcc (cfg : Config) (n : Node) : Option Occ :=
               else if thisE.isLit && allLit then none
               else if m == Generated.applyMethodName then
                 match rest with
-                | .arg none (.array elems _) :: _ =>
+                -- an array literal, also when it is spread (`...[a, b]` is the argument list `a, b`)
+                | .arg _ (.array elems _) :: _ =>
                   if thisE.isLit && (elems.all fun el => match el with | .arg _ e => e.isLit | _ => true) then none
                   else if thisE.isLit then some ⟨csi.dst, sp, "proto-apply/literal-this"⟩
                   else some ⟨csi.dst, sp, "proto-apply"⟩
@@ -89,6 +90,41 @@ def ownOcc (cfg : Config) (n : Node) : Option Occ :=
           | none => none
         | _, _ => none
       else none
+  | _ => none
+
+/-- receiver kinds of `recv?.m(..)` that the lowering of the chain puts in a temporary -/
+def optReceiverCovered : Node → Bool
+  | .ident .. => true
+  | .call .. => true
+  | .paren .. => true
+  | .array .. => true
+  | .member _ (.pname p _) _ => p != Generated.prototypeName
+  | .member .. => true
+  | .optChain _ (.member _ (.pname p _) _) _ => p != Generated.prototypeName
+  | .optChain .. => true
+  | _ => false
+
+/-- `recv?.m(..)` / `recv?.p.m(..)` / `recv.p?.m(..)` of a configured method `m` (the call itself is not the
+    optional link: `recv.m?.()` is a documented exclusion).  The lowered call has no source position, so
+    these occurrences are matched by replacement name only (`uncovered`). -/
+def chainRootIsLit : Node → Bool
+  | .lit .. => true
+  | .member o _ _ => chainRootIsLit o
+  | .optChain _ (.member o _ _) _ => chainRootIsLit o
+  | .optChain _ (.optCall c _ _) _ => chainRootIsLit c
+  | .call c _ _ => chainRootIsLit c
+  | .paren e _ => chainRootIsLit e
+  | _ => false
+
+def optCallOcc (cfg : Config) (n : Node) : Option Occ :=
+  match n with
+  | .optChain false (.optCall (.optChain _ (.member obj (.pname m _) _) _) _ _) sp =>
+    match cfg.get m with
+    | some csi =>
+      if optReceiverCovered obj then
+        some ⟨csi.dst, sp, if chainRootIsLit obj then "opt-call/chain-rooted-at-literal" else "opt-call"⟩
+      else none
+    | none => none
   | _ => none
 
 /-- context of each child, parallel to `kids` -/
@@ -104,7 +140,7 @@ def kidCtxs (cfg : Config) (c : CovCtx) (n : Node) : List CovCtx :=
 
 /-- every occurrence of the tree that the property requires to be instrumented -/
 def occurrences (cfg : Config) (c : CovCtx) (n : Node) : List Occ :=
-  (if c.inBlock && !c.excluded then (ownOcc cfg n).toList else []) ++
+  (if c.inBlock && !c.excluded then (ownOcc cfg n).toList ++ (optCallOcc cfg n).toList else []) ++
   ((n.kids.zip (kidCtxs cfg c n)).attach.map fun x => occurrences cfg x.1.2 x.1.1).flatten
 termination_by sizeOf n
 decreasing_by exact Node.sizeOf_lt_of_mem_kids (List.of_mem_zip x.2).1
@@ -119,6 +155,16 @@ def hookSites (out : Node) : List (String × Span) :=
 /-- occurrences of the input that have no hook of the expected name and span in the output -/
 def uncovered (cfg : Config) (inp out : Node) : List Occ :=
   let sites := hookSites out
-  (occurrences cfg {} inp).filter fun o => !(sites.any fun s => s.1 == o.dst && s.2 == o.sp)
+  let occs := occurrences cfg {} inp
+  let isOpt := fun (o : Occ) => o.what.startsWith "opt-call"
+  (occs.filter fun o => !isOpt o && !(sites.any fun s => s.1 == o.dst && s.2 == o.sp)) ++
+  -- optional-chain calls: as many position-less hook calls of the name as occurrences
+  ((occs.filter isOpt).map (·.dst)).eraseDups.filterMap fun dst =>
+    let need := (occs.filter fun o => isOpt o && o.dst == dst)
+    let have_ := (sites.filter fun s => s.1 == dst && s.2 == Span.dummy).length
+    if have_ < need.length then
+      -- report the literal-rooted one first when there is one (the known gap)
+      ((need.filter fun o => o.what != "opt-call").head?).orElse fun _ => need.head?
+    else none
 
 end IastModel
